@@ -10,8 +10,9 @@ from .rules_c17 import count_range
 EVAL = "sqlgrep::execution::expression_execution::ExpressionExecutionEngine::evaluate"
 SEL = "sqlgrep::execution::select_execution::SelectExecutionEngine::execute"
 V = "sqlgrep::model::Value"
-CMP_DIRECT = {"Equal": r"PartialEq>?::eq$", "NotEqual": r"PartialEq>?::ne$", "GreaterThan": r"PartialOrd::gt$", "GreaterThanOrEqual": r"PartialOrd::ge$",
-              "LessThan": r"PartialOrd::lt$", "LessThanOrEqual": r"PartialOrd::le$"}
+CMP_DIRECT = {"Equal": r"PartialEq(<[^>]*>)?( for &A)?>?::eq$", "NotEqual": r"PartialEq(<[^>]*>)?( for &A)?>?::ne$",
+              "GreaterThan": r"PartialOrd(<[^>]*>)?( for &A)?>?::gt$", "GreaterThanOrEqual": r"PartialOrd(<[^>]*>)?( for &A)?>?::ge$",
+              "LessThan": r"PartialOrd(<[^>]*>)?( for &A)?>?::lt$", "LessThanOrEqual": r"PartialOrd(<[^>]*>)?( for &A)?>?::le$"}
 # spelling through one Ordering: (method, constant) accepted per operator
 CMP_ORDERING = {"Equal": {("eq", "Equal"), ("is_eq", None)}, "NotEqual": {("ne", "Equal"), ("is_ne", None)},
                 "GreaterThan": {("eq", "Greater"), ("is_gt", None)}, "GreaterThanOrEqual": {("ne", "Less"), ("is_ge", None)},
@@ -79,6 +80,10 @@ def _index_chain(P, g, op, depth=6, _seen=None):
     return out
 
 
+EVAL_KEEP = (r"^sqlgrep::model::|^sqlgrep::data_model::|ColumnProvider|^sqlgrep::execution::(column_providers|helpers)::|"
+             r"^sqlgrep::execution::expression_execution::unique_values$")
+
+
 def run(R):
     P = R.prog
     R.rule("C03.sites", "no unchecked arithmetic, narrowing cast or panicking call on evaluated data (site inventory rooted at evaluate)")
@@ -90,7 +95,8 @@ def run(R):
     R.rule("C03.arith", "ArithmeticOperator -> checked integer primitive / float operator table in the arithmetic closures")
     R.rule("C03.bool", "AND / OR evaluate the right operand only behind the left operand's truth value (two-valued short circuit)")
     R.rule("C03.project", "`*` expands through ColumnProvider::keys (definition order); one value is pushed per projection; one row per call")
-    f = R.need_fn(EVAL)
+    # evaluate with its small local helpers inlined (e.g. a `compare_values(op, l, r)` extracted from the Compare arm)
+    f = PR.view(P, R.need_fn(EVAL), keep=EVAL_KEEP)
     # ---- exhaustive top-level match
     top = [sw for sw in A.enum_switches(f, "model::ExpressionTree") if f.dominates(sw, sw)]
     if not top:
